@@ -31,12 +31,70 @@ var (
 var clockSteps = []time.Duration{time.Millisecond, 40 * time.Millisecond, 300 * time.Millisecond, 1100 * time.Millisecond, 2500 * time.Millisecond,
 	11 * time.Second, 61 * time.Second, 6 * time.Minute, 61 * time.Minute, 25 * time.Hour, 8 * 24 * time.Hour, 32 * 24 * time.Hour, 366 * 24 * time.Hour}
 
+// timers the library armed with time.AfterFunc: the simulator runs their function when
+// simulated time has passed the deadline, on the goroutine that moved the clock (the
+// interleaving "the timer's goroutine ran to completion between two steps").
+type simTimer struct {
+	at time.Time
+	f  func()
+	t  *time.Timer // what the library holds: a real timer that never fires by itself; Stop() on it is honoured
+}
+
+var simTimers []*simTimer
+var timerFns = map[*time.Timer]func(){}
+
+func advance(d time.Duration) {
+	vnow = vnow.Add(d)
+	for fired := true; fired; {
+		fired = false
+		for i, st := range simTimers {
+			if !st.at.After(vnow) {
+				simTimers = append(simTimers[:i], simTimers[i+1:]...)
+				if st.t.Stop() { // (false: the library stopped it meanwhile)
+					if clockCtx != nil {
+						clockCtx.hit("F13_library_timer_fired")
+						clockCtx.logf("a timer of the library fires")
+					}
+					st.f()
+				}
+				fired = true
+				break
+			}
+		}
+	}
+}
+
 func init() {
 	simrt.ClockHook = func() time.Time { return vnow }
 	simrt.SleepHook = func(d time.Duration) {
 		if d > 0 {
-			vnow = vnow.Add(d)
+			advance(d)
 		}
+	}
+	simrt.AfterFuncHook = func(d time.Duration, f func()) *time.Timer {
+		t := time.AfterFunc(1000000*time.Hour, func() {})
+		if len(simTimers) < 4096 {
+			simTimers = append(simTimers, &simTimer{at: vnow.Add(d), f: f, t: t})
+			if len(timerFns) < 4096 {
+				timerFns[t] = f
+			}
+		}
+		return t
+	}
+	simrt.TimerResetHook = func(t *time.Timer, d time.Duration) bool {
+		f, ours := timerFns[t]
+		if !ours {
+			return t.Reset(d)
+		}
+		for i, st := range simTimers {
+			if st.t == t {
+				simTimers = append(simTimers[:i], simTimers[i+1:]...)
+				break
+			}
+		}
+		active := t.Reset(1000000 * time.Hour)
+		simTimers = append(simTimers, &simTimer{at: vnow.Add(d), f: f, t: t})
+		return active
 	}
 }
 
@@ -52,9 +110,9 @@ func clockTick(where string) {
 	}
 	d := clockSteps[clockRng.IntN(len(clockSteps))]
 	d += time.Duration(clockRng.Int64N(int64(d)/4 + 1))
-	vnow = vnow.Add(d)
 	if clockCtx != nil {
 		clockCtx.hit("F13_clock_jumped_forward")
 		clockCtx.logf("clock +%v before %s", d, where)
 	}
+	advance(d)
 }
